@@ -142,6 +142,9 @@ def Key.deg (nbdr endpts : Nat) : Key → Int
 /-- degree of the monomial `H^a T^b` (`deg H = −2`, `deg T = −4`) -/
 def monoDeg (m : Mono) : Int := -2 * (m.1 : Int) - 4 * (m.2 : Int)
 
+/-- `KhComplex::new`: `assert!(!reduced || (!l.is_empty() && t.is_zero()))` -/
+def ctorGuard (reduced nonEmpty tZero : Bool) : Res Unit := Res.assert (!reduced || (nonEmpty && tZero))
+
 /-! ### verified checker for `d ∘ d = 0` on exported integer matrices (rows as lists) -/
 
 def dot : List Int → List Int → Int
